@@ -465,6 +465,7 @@ func abRoundTrips(c *Ctx, b *nom.AccountBlock) {
 	}); r == "panic" {
 		c.Fail("account block rlp round trip panics :: %s", short(want))
 	}
+	codecJsonCase(c, b) // every JSON entry point, every field non-zero (s_codec_json.go)
 }
 
 func momentumRoundTrips(c *Ctx, m *nom.Momentum, blocks []*nom.AccountBlock) {
@@ -878,6 +879,7 @@ func codecMomentumCase(c *Ctx, m *nom.Momentum, blocks []*nom.AccountBlock) {
 	}
 	c.Hit(fmt.Sprintf("mom-content-%s", bucket(len(m.Content))))
 	momentumRoundTrips(c, m, blocks)
+	codecJsonMomentumCase(c, m, blocks)
 	momSensitivity(c, m)
 }
 
@@ -1179,6 +1181,10 @@ func init() {
 		}
 		codecMomentumCase(c, &nom.Momentum{}, nil)
 		for i := 0; i < c.N; i++ {
+			if i%2500 == 100 || (i == c.N-1 && c.N <= 100) {
+				codecPublishNode(c) // a real node: blocks published through the JSON of the RPC are stored byte for byte
+				log15.Root().SetHandler(log15.DiscardHandler())
+			}
 			switch {
 			case i%5 == 4:
 				m := cRandMomentum(c)
